@@ -399,6 +399,15 @@ def stage_ts(script, table, n_workers, fault=False, detects=True):
             ts.t("flagcheck-retry w%d" % w, "w%d" % w, (lambda wsn: (lambda s: z3.And(s[wsn] == W_CHECK, s["flag"] == 0)))(wsn), to(wsn, W_IDLE), spin=True)
     ts.I, ts.W = I, W
     ts.max_steps = len(script) + I + 3 * I + 5 * W + 2
+
+    def spin_norm(s):
+        # a worker in the middle of a polling round (timed out / flag read, flag down) is back at the receive
+        out = {}
+        for w in range(W):
+            x = s["ws%d" % w]
+            out["ws%d" % w] = z3.If(z3.And(s["flag"] == 0, z3.Or(x == W_CHECK, z3.And(x == W_READY, s["wf%d" % w] == 0))), bmc.bv(W_IDLE, 3), x)
+        return out
+    ts.spin_norm = spin_norm
     return ts
 
 
@@ -899,6 +908,17 @@ def walk_ts(tree, n_workers, R, worker_post, done_maxsize, shutdown, fault=False
             ts.t("flagcheck-retry w%d" % w, "w%d" % w, (lambda w: (lambda s: z3.And(s["wx%d" % w] == 3, s["flag"] == 0)))(w), (lambda w: (lambda s: {"wx%d" % w: bmc.bv(0, 2)}))(w), spin=True)
     ts.N, ts.W, ts.tree = N, W, tree
     ts.max_steps = N * 8 + len(shutdown) + 5 * W + 2
+
+    def spin_norm(s):
+        out = {}
+        for w in range(W):
+            x = s["wx%d" % w]
+            polling = z3.And(x == 3, s["flag"] == 0)
+            if flag_read == "before_get":
+                polling = z3.And(polling, s["wf%d" % w] == 0)
+            out["wx%d" % w] = z3.If(polling, bmc.bv(0, 2), x)
+        return out
+    ts.spin_norm = spin_norm
     return ts
 
 
